@@ -19,6 +19,8 @@ import io
 import json
 import math
 import random
+import re
+import zlib
 import sys
 from fractions import Fraction
 from typing import Any, Dict, List, Optional, Tuple
@@ -103,7 +105,7 @@ class Scenario:
                         mesh.add(cb.Loft(bottom, top))
             mesh.assemble()
             self.mesh = mesh
-            self.opt = MeshOptimizer(mesh, report=False)
+            self.opt = MeshOptimizer(mesh, report=bool(case.get("report")))
             self.quads = None
         else:
             nx = d[0] + 1
@@ -114,7 +116,7 @@ class Scenario:
                     quads.append([j * nx + i, j * nx + i + 1, (j + 1) * nx + i + 1, (j + 1) * nx + i])
             self.quads = quads
             self.sketch = MappedSketch(plist, quads)
-            self.opt = SketchOptimizer(self.sketch, report=False)
+            self.opt = SketchOptimizer(self.sketch, report=bool(case.get("report")))
         grid = self.opt.grid
         # lattice point -> junction index (by position, exact construction values)
         self.index_of: Dict[Tuple[int, int, int], int] = {}
@@ -527,7 +529,12 @@ class C13(core.Check):
         "against the geometry given at the start), variants (positions typed by hand: lists / tuples, whole numbers as "
         "ints), micro (the lattice with 0.05..0.2 mm cells), rejected (link candidates whose follower is no grid point "
         "are refused, the error is caught, then optimize), "
-        "boundary (0 iterations, no clamps, auto_optimize). Non-trivial = at least one accepted (improved) step or a "
+        "boundary (0 iterations, no clamps, auto_optimize; 0 iterations with the report on), defaults (optimize() without "
+        "arguments), driver (no optimiser run: a real IterationDriver fed with begin / end_iteration calls - limits -1..20, "
+        "tolerances incl. 0, negative, > 1, equal qualities, differences below VSMALL, worse iterations, start quality 0, "
+        "end before begin - and a real ClampOptimizationData put through final values / rollback / skip / undo); every "
+        "second case runs with report=True and its printed summary line is compared and judged. "
+        "Non-trivial = at least one accepted (improved) step or a "
         "rollback / skip; distinct = different case description."
     )
     assumptions = [
@@ -550,7 +557,11 @@ class C13(core.Check):
         "/ T_C13_bounds (C17 proves the manifold part for the library's clamps); the harness checks manifold "
         "membership, bounds and link relations numerically on the implementation. Quality-not-worse on the "
         "implementation is compared with a slack (see assumptions); the exact statement for a not yet consistent "
-        "initial state is T_C13_noworse_general."
+        "initial state is T_C13_noworse_general. Round 6: the driver / reporter model (IterationDriver, ClampOptimizationData, "
+        "summary block) is over Q, the implementation computes in floats (compared to 1e-9 relative, the printed summary to 4 "
+        "digits); T_C13_tie_statements is a textual snapshot of the control methods (trip-wire), the other T_C13_tie_* are "
+        "semantic; add_clamp / add_link between two optimize() calls and exceptions other than ValueError inside the "
+        "minimiser have no theorem."
     )
 
     # ------------------------------------------------------------------ generators
@@ -559,6 +570,15 @@ class C13(core.Check):
             d = [rng.randint(-4, 4) / 4 for _ in range(3)]
             if sum(abs(x) for x in d) >= 0.5:
                 return d
+
+    def _rand_dir_indep(self, rng: random.Random, e1: List[float]) -> List[float]:
+        """a second frame direction that is not (nearly) parallel to the first: e1, e2 span the local frame of a
+        curve / surface clamp (round 6: two parallel draws gave a frame of NaNs in the judge and a false alarm)"""
+        while True:
+            e2 = self._rand_dir(rng)
+            cr = [e1[1] * e2[2] - e1[2] * e2[1], e1[2] * e2[0] - e1[0] * e2[2], e1[0] * e2[1] - e1[1] * e2[0]]
+            if sum(x * x for x in cr) >= 1 / 16:
+                return e2
 
     def _gen_valid(self, rng: random.Random, tier: str, stream: str = "valid") -> dict:
         kind = "mesh" if rng.random() < 0.55 else "sketch"
@@ -621,10 +641,11 @@ class C13(core.Check):
                         spec["bounds"] = [-rng.randint(1, 3) / 8, rng.randint(1, 3) / 8]
                 elif t == "curve":
                     e1 = self._rand_dir(rng)
-                    e2 = self._rand_dir(rng)
+                    e2 = self._rand_dir_indep(rng, e1)
                     spec.update({"e1": e1, "e2": e2, "a": rng.randint(-4, 4) / 8, "bounds": [-rng.randint(2, 4) / 8, rng.randint(2, 4) / 8]})
                 elif t == "surface":
-                    spec.update({"e1": self._rand_dir(rng), "e2": self._rand_dir(rng), "c": rng.randint(-4, 4) / 8})
+                    e1 = self._rand_dir(rng)
+                    spec.update({"e1": e1, "e2": self._rand_dir_indep(rng, e1), "c": rng.randint(-4, 4) / 8})
                     if rng.random() < 0.5:
                         spec["bounds"] = [[-0.375, 0.375], [-0.25, 0.5]]
             clamps.append(spec)
@@ -995,12 +1016,107 @@ class C13(core.Check):
         cases += [self._gen_rejected(rng, tier) for _ in range(3 if tier == "quick" else 24)]
         for _ in range(1 if tier == "quick" else 5):
             cases += self._gen_boundary(rng, tier)
+        # round 6 (drawn last: the cases above are the ones earlier rounds saw for the same seed)
+        cases += [self._gen_defaults(rng, tier) for _ in range(1 if tier == "quick" else 10)]
+        c = self._gen_valid(rng, tier, "boundary")
+        c.update({"max_iterations": 0, "report": True})
+        cases.append(c)
+        for c in cases:
+            # the summary block of optimize() (`if self.report:`) runs in every second case; no random number is drawn
+            if "report" not in c:
+                c["report"] = zlib.crc32(json.dumps(c, sort_keys=True).encode()) % 2 == 0 and all(
+                    mi >= 1 for mi in ([c["max_iterations"]] if not c.get("calls") else [x[1] for x in c["calls"]]) if mi is not None
+                )
+        cases += [self._gen_driver(rng) for _ in range(40 if tier == "quick" else 400)]
         return cases
 
+    def _gen_defaults(self, rng: random.Random, tier: str) -> dict:
+        """optimize() called without arguments: max_iterations, tolerance and method are the source's defaults"""
+        c = self._gen_valid(rng, tier, "defaults")
+        c.update({"use_defaults": True, "method": "SLSQP", "max_iterations": None, "tolerance": None})
+        c.pop("calls", None)
+        return c
+
+    def _gen_driver(self, rng: random.Random) -> dict:
+        """the book-keeping classes on their own: an IterationDriver fed with begin / end_iteration calls and a
+        ClampOptimizationData put through final values / rollback / skip"""
+        mx = rng.choice([-1, 0, 1, 2, 3, 3, 4, 6, 20])
+        tol = rng.choice([0.1, 0.1, 1e-3, 0.5, 0.0, -0.1, 1.5])
+        n = rng.randint(0, 6)
+        q = rng.choice([0.0, 0.0, 1.0, 2.5]) if rng.random() < 0.2 else rng.randint(1, 9000) / 1000
+        ops = []
+        for k in range(n):
+            ops.append(["b", q])
+            if k == n - 1 and rng.random() < 0.15:
+                break  # begin without end: final_quality is still VBIG
+            r = rng.random()
+            if r < 0.25:
+                q2 = q  # nothing gained
+            elif r < 0.35:
+                q2 = q + rng.choice([5e-7, -5e-7, 2e-7])  # below VSMALL
+            elif r < 0.45:
+                q2 = q + rng.randint(1, 500) / 1000  # worse (the theorems exclude it, the class must cope)
+            else:
+                q2 = max(0.0, q - rng.randint(1, 2000) / 1000) if rng.random() < 0.8 else q * rng.choice([0.5, 0.9, 0.99, 0.999])
+            ops.append(["e", q2])
+            q = q2
+        if rng.random() < 0.05:
+            ops = [["e", 1.0]] + ops  # end_iteration before any begin_iteration: IndexError
+        gi = rng.randint(1, 9000) / 1000
+        ji = rng.randint(1, 9000) / 1000
+        rops = []
+        for _ in range(rng.randint(0, 3)):
+            k = rng.choice(["f", "f", "r", "s", "u"])
+            rops.append([k, rng.randint(1, 9000) / 1000, gi + rng.randint(-500, 500) / 1000] if k == "f" else [k])
+        return {"stream": "driver", "kind": "driver", "max_iterations": mx, "tolerance": tol, "ops": ops,
+                "reporter": [rng.randint(0, 30), gi, ji, rops], "clamps": [], "links": [], "method": "-"}
+
     # ------------------------------------------------------------------ implementation
+    def _run_driver(self, case: dict) -> Any:
+        """the real IterationDriver / ClampOptimizationData, call by call"""
+        from classy_blocks.optimize.iteration import ClampOptimizationData, IterationDriver
+
+        def state(d) -> dict:
+            try:
+                conv = "yes" if d.converged else "no"
+            except ZeroDivisionError:
+                conv = "ZeroDivisionError"
+            return {"conv": conv, "n": len(d.iterations), "init": float(d.initial_improvement), "last": float(d.last_improvement),
+                    "idx": [it.index for it in d.iterations]}
+
+        buf = io.StringIO()
+        with contextlib.redirect_stdout(buf):
+            d = IterationDriver(case["max_iterations"], case["tolerance"])
+            states: List[Any] = [state(d)]
+            for op, q in case["ops"]:
+                try:
+                    if op == "b":
+                        d.begin_iteration(q)
+                    else:
+                        d.end_iteration(q)
+                except IndexError:
+                    states.append("IndexError")
+                    break
+                states.append(state(d))
+            idx, gi, ji, rops = case["reporter"]
+            r = ClampOptimizationData(idx, gi, ji)
+            for op in rops:
+                if op[0] == "f":
+                    r.junction_final, r.grid_final = op[1], op[2]
+                else:
+                    {"r": r.rollback, "s": r.skip, "u": r.undo}[op[0]]()
+            r.report_end()
+        line = buf.getvalue().splitlines()[-1] if buf.getvalue() else ""
+        rep = {"index": r.index, "gi": r.grid_initial, "ji": r.junction_initial, "jf": r.junction_final, "gf": r.grid_final,
+               "skipped": bool(r.skipped), "rolled_back": bool(r.rolled_back), "improvement": float(r.improvement),
+               "comment": "Skip" if line.rstrip().endswith("Skip") else ("Rollback" if line.rstrip().endswith("Rollback") else "")}
+        return {"driver_states": states, "reporter_final": rep, "reporters": [1]}
+
     def run_impl(self, case: dict) -> Any:
         import numpy as np
 
+        if case.get("stream") == "driver":
+            return self._run_driver(case)
         try:
             sc = Scenario(case)
         except Exception as e:  # the scenario cannot be set up (e.g. clamp constructor rejects): not a case
@@ -1016,7 +1132,8 @@ class C13(core.Check):
                     # a new optimizer for the same mesh / sketch, re-using the clamp and link objects
                     from classy_blocks.optimize.optimizer import MeshOptimizer, SketchOptimizer
 
-                    sc.opt = MeshOptimizer(sc.mesh, report=False) if sc.mesh is not None else SketchOptimizer(sc.sketch, report=False)
+                    rep = bool(case.get("report"))
+                    sc.opt = MeshOptimizer(sc.mesh, report=rep) if sc.mesh is not None else SketchOptimizer(sc.sketch, report=rep)
                     try:
                         for _, clamp, _ in sc.clamps:
                             sc.opt.add_clamp(clamp)
@@ -1038,11 +1155,26 @@ class C13(core.Check):
                 rec.record_rest()
                 raised = None
                 driver = None
+                out0 = len(buf.getvalue())
+                summary_exc = None
                 try:
                     run = opt.auto_optimize if case.get("auto") else opt.optimize
-                    driver = run(max_iterations=max_iterations, tolerance=case["tolerance"], method=method)
+                    if case.get("use_defaults"):
+                        driver = run()  # max_iterations, tolerance, method: the defaults of the source
+                    else:
+                        driver = run(max_iterations=max_iterations, tolerance=case["tolerance"], method=method)
                 except ValueError as e:
                     raised = f"ValueError: {e}"[:200]
+                except (IndexError, ZeroDivisionError) as e:
+                    # the summary block of optimize() (report=True) without iterations / with start quality 0: the
+                    # model predicts it (Driver.summary); anything else of this kind is an internal error
+                    if not case.get("report"):
+                        raise
+                    summary_exc = type(e).__name__
+                co["summary_exc"] = summary_exc
+                m = re.search(r"Overall improvement: (\S+) > ([^\s(]+)\((\S+), (-?\d+)%\)", buf.getvalue()[out0:])
+                co["summary"] = list(m.groups()) if m else None
+                co["n_tol_msg"] = buf.getvalue()[out0:].count("Tolerance reached")
                 rec.record_rest()
                 rec.ensure_clamps()
                 clamp_objs = [rec.clamp_by_idx[rec.idx_of_clamp[j]] for j in range(len(rec.clamp_by_idx))]
@@ -1064,7 +1196,8 @@ class C13(core.Check):
                     co["back"] = [rec.pid(v.position) for v in sc.mesh.vertices]
                 else:
                     co["back"] = [rec.pid(p) for p in sc.sketch.positions]
-                co["hist"] = [[it.initial_quality, it.final_quality] for it in driver.iterations] if driver is not None else None
+                co["hist"] = [[it.initial_quality, it.final_quality] for it in driver.iterations] if driver is not None else ([] if summary_exc else None)
+                co["driver_args"] = [driver.max_iterations, driver.tolerance] if driver is not None else None
                 co["reporters"] = [
                     {"idx": r.index, "flag": "S" if r.skipped else ("R" if r.rolled_back else "I"), "gi": r.grid_initial, "gf": r.grid_final}
                     for r in rec.reporters
@@ -1133,7 +1266,22 @@ class C13(core.Check):
     def requests(self, case: dict, impl: Any) -> List[str]:
         if "setup_error" in impl:
             return []
+        if case.get("stream") == "driver":
+            ops = ";".join(f"{o}:{core.rat(q)}" for o, q in case["ops"]) or "-"
+            idx, gi, ji, rops = case["reporter"]
+            r = ";".join(f"f:{core.rat(o[1])}:{core.rat(o[2])}" if o[0] == "f" else o[0] for o in rops) or "-"
+            return [
+                f"c13.driver {case['max_iterations']} {core.rat(case['tolerance'])} {ops} 0",
+                f"c13.reporter {idx} {core.rat(gi)} {core.rat(ji)} {r}",
+            ]
         lines = [self._request_one(case, c) for c in self._per_call(impl)]
+        # the driver object of every call, rebuilt from the recorded iteration qualities, with the summary block
+        for c in self._per_call(impl):
+            if c.get("hist") is not None and c.get("raised") is None:
+                ops = ";".join(f"b:{core.rat(a)};e:{core.rat(b)}" for a, b in c["hist"]) or "-"
+                mi = "20" if case.get("use_defaults") else str(c["max_iterations"])
+                tol = "1/10" if case.get("use_defaults") else core.rat(case["tolerance"])
+                lines.append(f"c13.driver {mi} {tol} {ops} {1 if case.get('report') else 0}")
         su = impl.get("setup")
         if su and su["log"]:
             v3 = lambda p: ",".join(core.rat(x) for x in p)
@@ -1171,14 +1319,91 @@ class C13(core.Check):
                 "[" + ",".join(f"{a}:{b}:{c}" for a, b, c in impl["lnk"]) + "]",
                 "[" + ",".join(f"{_dots(k)}={_q(v)}" for k, v in impl["G"]) + "]",
                 "[" + ",".join(f"{i}@{_dots(k)}={_q(v)}" for i, k, v in impl["J"]) + "]",
-                f"{impl['max_iterations']}:{core.rat(case['tolerance'])}",
+                "d:d" if case.get("use_defaults") else f"{impl['max_iterations']}:{core.rat(case['tolerance'])}",
                 "|".join(sched) if sched else "-",
                 back,
             ]
         )
         return line
 
+    @staticmethod
+    def _close(a: float, b: Fraction, rel: float = 1e-9) -> bool:
+        return abs(Fraction(a) - b) <= rel * max(abs(b), Fraction(1, 10**9))
+
+    def _compare_driver_states(self, states: List[Any], ans: str, case_tol: float) -> Optional[str]:
+        parts = ans.split("|")
+        if len(parts) < len(states):
+            return f"{len(parts)} model states for {len(states)} of the implementation"
+        for n, (st, m) in enumerate(zip(states, parts)):
+            what = "after __init__" if n == 0 else f"after call {n}"
+            if st == "IndexError" or m == "IndexError":
+                if st != m:
+                    return f"{what}: implementation {st}, model {m}"
+                continue
+            f = dict(x.split("=") for x in m.split(","))
+            if int(f["n"]) != st["n"] or st["idx"] != list(range(st["n"])):
+                return f"{what}: {st['n']} iterations with indices {st['idx']}, model {f['n']}"
+            for k in ("init", "last"):
+                if not self._close(st[k], Fraction(f[k])):
+                    return f"{what}: {k}_improvement {st[k]!r}, model {f[k]}"
+            if f["conv"] != st["conv"]:
+                return f"{what}: converged = {st['conv']}, model {f['conv']}"
+        return None
+
+    def _compare_driver(self, case: dict, impl: Any, model: List[str]) -> Optional[str]:
+        if "bad-op" in model:
+            return "model rejects the request (bad-op)"
+        why = self._compare_driver_states(impl["driver_states"], model[0], case["tolerance"])
+        if why:
+            return "IterationDriver " + why
+        r = impl["reporter_final"]
+        f = model[1].split(",")
+        want = [str(r["index"]), core.rat(r["gi"]), core.rat(r["ji"]), core.rat(r["jf"]), core.rat(r["gf"]),
+                "true" if r["skipped"] else "false", "true" if r["rolled_back"] else "false"]
+        if f[:7] != want:
+            return f"ClampOptimizationData record {want}, model {f[:7]}"
+        if not self._close(r["improvement"], Fraction(f[7])):
+            return f"ClampOptimizationData.improvement {r['improvement']!r}, model {f[7]}"
+        if f[8] != r["comment"]:
+            return f"status column {r['comment']!r}, model {f[8]!r}"
+        return None
+
+    def _compare_call_driver(self, case: dict, c: dict, ans: str) -> Optional[str]:
+        """the driver of one optimize() call: rebuilt by the model from the iteration qualities it must say
+        `converged` exactly at the end, and its summary block must be what optimize() printed"""
+        if ans == "bad-op":
+            return "model rejects the c13.driver request (bad-op)"
+        parts = ans.split("|")
+        want_args = [20, 0.1] if case.get("use_defaults") else [c["max_iterations"], case["tolerance"]]
+        if c.get("driver_args") is not None and c["driver_args"] != want_args:
+            return f"IterationDriver was built with {c['driver_args']}, the call says {want_args}"
+        states = [dict(x.split("=") for x in p.split(",")) for p in parts[:-1]]
+        # after __init__ and after every end_iteration but the last the loop went on, after the last it stopped
+        ends = [states[0]] + states[2::2]
+        for k, st in enumerate(ends):
+            if (st["conv"] == "yes") != (k == len(ends) - 1):
+                return f"the loop ran {len(ends) - 1} iterations; the driver model says converged={st['conv']} after {k}"
+        msum = parts[-1][4:]
+        if c.get("summary_exc") or msum in ("IndexError", "ZeroDivisionError"):
+            if c.get("summary_exc") != msum:
+                return f"summary block: implementation {c.get('summary_exc') or 'printed ' + str(c.get('summary'))}, model {msum}"
+            return None
+        if not case.get("report"):
+            return None if (msum == "off" and c.get("summary") is None) else f"report is off, summary printed: {c.get('summary')}, model {msum}"
+        if c.get("summary") is None:
+            return f"no summary line was printed, model {msum}"
+        a, b, d, rel = (Fraction(x) for x in msum.split(":"))
+        want = [f"{float(a):.3e}", f"{float(b):.3e}", f"{float(d):.3e}", f"{float(rel) * 100:.0f}"]
+        got = c["summary"]
+        if got != want and [float(x) for x in got[:3]] != [float(x) for x in want[:3]]:
+            return f"summary line of optimize(): printed {got}, model {want}"
+        if got[3] != want[3] and abs(float(rel) * 100 % 1 - 0.5) > 1e-6:
+            return f"summary line of optimize(): relative improvement printed {got[3]}%, model {want[3]}%"
+        return None
+
     def compare(self, case: dict, impl: Any, model: List[str]) -> Optional[str]:
+        if case.get("stream") == "driver":
+            return self._compare_driver(case, impl, model)
         if impl.get("conflicts"):
             return "recorded oracle graphs are not functional (a clamp function / link / quality answered differently for the same argument): " + "; ".join(impl["conflicts"])
         # set-up: the grid must have the clamps on the junctions of the clamped vertices and exactly the links that
@@ -1195,10 +1420,18 @@ class C13(core.Check):
             why = self._compare_setup(su, model[-1])
             if why:
                 return "set-up: " + why
-        for n, (c, ans) in enumerate(zip(self._per_call(impl), model)):
+        calls = self._per_call(impl)
+        for n, (c, ans) in enumerate(zip(calls, model)):
             why = self._compare_one(case, c, ans)
             if why:
-                return (f"optimize() call {n + 1}: " if len(model) > 1 else "") + why
+                return (f"optimize() call {n + 1}: " if len(calls) > 1 else "") + why
+        k = len(calls)
+        for n, c in enumerate(calls):
+            if c.get("hist") is not None and c.get("raised") is None:
+                why = self._compare_call_driver(case, c, model[k])
+                k += 1
+                if why:
+                    return (f"optimize() call {n + 1}: " if len(calls) > 1 else "") + why
         return None
 
     @staticmethod
@@ -1266,6 +1499,18 @@ class C13(core.Check):
         import numpy as np
 
         out: List[dict] = []
+        if case.get("stream") == "driver":
+            # termination: the driver must say `converged` once it holds max_iterations iterations;
+            # a rolled back / skipped record reports nothing gained
+            for st in impl["driver_states"]:
+                if st != "IndexError" and st["n"] >= case["max_iterations"] and st["conv"] != "yes":
+                    out.append({"site": "IterationDriver.converged:limit-ignored", "what": f"{st['n']} iterations with max_iterations={case['max_iterations']}: converged={st['conv']}", "observed": st["conv"], "expected": "yes"})
+                    break
+            r = impl["reporter_final"]
+            last = case["reporter"][3][-1][0] if case["reporter"][3] else None
+            if last in ("r", "s", "u") and (r["improvement"] != 0 or r["gf"] != r["gi"] or r["jf"] != r["ji"]):
+                out.append({"site": "ClampOptimizationData.undo:not-restoring", "what": f"after {last}: {r}", "observed": r["improvement"], "expected": 0})
+            return out
         if "setup_error" in impl:
             # the generator only produces configurations the library documents as valid (clamps at vertex
             # positions, links between two different vertices): being unable to set one up is a failure
@@ -1308,6 +1553,19 @@ class C13(core.Check):
         if impl["q1"] is None or impl["q1"] > impl["q0"] + Q_REL * abs(impl["q0"]) + Q_ABS:
             if not overlap:
                 out.append({"site": "optimize:quality-worse", "what": f"grid quality {impl['q0']} -> {impl['q1']}", "observed": impl["q1"], "expected": f"<= {impl['q0']}"})
+        # 1b. the summary optimize() prints is truthful: start / end are the grid quality before / after, the
+        # improvement is their difference (4 digits are printed)
+        sm = impl.get("summary")
+        if sm and impl["q1"] is not None:
+            try:
+                ps, pe, pa = float(sm[0]), float(sm[1]), float(sm[2])
+                want = impl["q0"] - impl["q1"]
+                bad = (abs(ps - impl["q0"]) > 1e-3 * abs(impl["q0"]) or abs(pe - impl["q1"]) > 1e-3 * abs(impl["q1"])
+                       or abs(pa - want) > 1e-3 * abs(want) + 1e-12)
+            except ValueError:
+                bad = True
+            if bad:
+                out.append({"site": "optimize:summary-not-initial-minus-final", "what": f"printed 'Overall improvement: {sm[0]} > {sm[1]}({sm[2]}, {sm[3]}%)' for grid quality {impl['q0']} -> {impl['q1']}", "observed": sm, "expected": f"{impl['q0']:.3e} > {impl['q1']:.3e}({impl['q0'] - impl['q1']:.3e}, …)"})
         # 2. frame: neither clamped nor follower of a clamped leader -> bit-identical
         # which vertices may move is taken from the CASE (vertex that was clamped, links that were added), not from
         # what the implementation registered
@@ -1363,6 +1621,9 @@ class C13(core.Check):
         return json.dumps(case, sort_keys=True)
 
     def classify(self, case, impl):
+        if case.get("stream") == "driver":
+            convs = {st["conv"] if st != "IndexError" else "IndexError" for st in impl["driver_states"]}
+            return "driver:" + "+".join(sorted(convs))
         if "setup_error" in impl:
             return "setup-error"
         flags = "".join(sorted({r["flag"] for r in impl.get("reporters", [])}))
